@@ -140,3 +140,214 @@ def check_function(chk, db, f, family, pos_name, needle_atom, hay_atom, rule="EX
                 "include/etl/" + f["file"], info.get("line"), f["n"], bad[0], T.show_model(bad[1]), FAMILIES[family]),
                 {"where": astx.loc(f), "model": T.show_model(bad[1])})
     return n
+
+
+# ---- RWINDOW: the part of the haystack a backward search looks at ------------------------------------------------------
+M64 = 1 << 64
+
+
+class _NM(Exception):
+    pass
+
+
+class _Ret(Exception):
+    pass
+
+
+def _ival(e, env, this_size, sizes):
+    """value of an integer expression in a concrete model (64-bit unsigned wrap-around)"""
+    e = astx.strip_casts(e)
+    while e is not None and (e.get("k") == "paren" or (e.get("k") in ("construct", "initlist") and len(e.get("a", [])) == 1)):
+        e = astx.strip_casts(e.get("e") if e.get("k") == "paren" else e["a"][0])
+    if e is None:
+        raise _NM("empty")
+    iv = astx.int_value(e)
+    if iv is not None:
+        return iv % M64
+    k = e.get("k")
+    if k in ("ref", "mem") and e.get("n") == "npos":
+        return M64 - 1
+    if k == "ref":
+        if e["n"] in env:
+            return env[e["n"]]
+        raise _NM("name " + e["n"])
+    if k == "bool":
+        return 1 if e["v"] else 0
+    if k == "un" and e["op"] == "!":
+        return 0 if _ival(e["e"], env, this_size, sizes) else 1
+    if k == "un" and e["op"] in ("++", "--"):
+        t = astx.strip_casts(e["e"])
+        if t is None or t.get("k") != "ref" or t["n"] not in env:
+            raise _NM("step of a non-local")
+        old = env[t["n"]]
+        env[t["n"]] = (old + (1 if e["op"] == "++" else -1)) % M64
+        return old if e.get("postfix") else env[t["n"]]
+    if k == "bin":
+        op = e["op"]
+        if op in ("=", "+=", "-="):
+            t = astx.strip_casts(e["l"])
+            if t is None or t.get("k") != "ref":
+                raise _NM("assignment target")
+            v = _ival(e["r"], env, this_size, sizes)
+            if op != "=":
+                cur = _ival(e["l"], env, this_size, sizes)
+                v = (cur + v) % M64 if op == "+=" else (cur - v) % M64
+            env[t["n"]] = v
+            return v
+        if op == "&&":
+            return 1 if (_ival(e["l"], env, this_size, sizes) and _ival(e["r"], env, this_size, sizes)) else 0
+        if op == "||":
+            return 1 if (_ival(e["l"], env, this_size, sizes) or _ival(e["r"], env, this_size, sizes)) else 0
+        a, b = _ival(e["l"], env, this_size, sizes), _ival(e["r"], env, this_size, sizes)
+        if op in ("+", "-", "*"):
+            return {"+": a + b, "-": a - b, "*": a * b}[op] % M64
+        if op in ("<", "<=", ">", ">=", "==", "!="):
+            return 1 if {"<": a < b, "<=": a <= b, ">": a > b, ">=": a >= b, "==": a == b, "!=": a != b}[op] else 0
+        raise _NM("operator " + op)
+    if k == "cond":
+        return _ival(e["t"] if _ival(e["c"], env, this_size, sizes) else e["f"], env, this_size, sizes)
+    if k == "call":
+        nm, q, recv, kind = astx.callee(e)
+        if nm in ("size", "length") and not e["a"]:
+            r = astx.strip_casts(recv) if recv is not None else None
+            if kind != "member" or r is None or astx.is_this(r):
+                return this_size
+            if r.get("k") == "ref" and r["n"] in sizes:
+                return sizes[r["n"]]
+            raise _NM("size of " + astx.show(r, 20))
+        if nm == "empty" and not e["a"]:
+            r = astx.strip_casts(recv) if recv is not None else None
+            if kind != "member" or r is None or astx.is_this(r):
+                return 1 if this_size == 0 else 0
+            if r.get("k") == "ref" and r["n"] in sizes:
+                return 1 if sizes[r["n"]] == 0 else 0
+        if nm in ("min", "max") and len(e["a"]) == 2:
+            a, b = _ival(e["a"][0], env, this_size, sizes), _ival(e["a"][1], env, this_size, sizes)
+            return min(a, b) if nm == "min" else max(a, b)
+        if nm == "clamp" and len(e["a"]) == 3:
+            v, lo, hi = (_ival(x, env, this_size, sizes) for x in e["a"])
+            return lo if v < lo else (hi if hi < v else v)
+        if nm == "data" and not e["a"]:
+            return 0        # positions are measured from data()
+    raise _NM(astx.show(e, 30))
+
+
+def _run_until(stmts, env, this_size, sizes, is_site):
+    """execute statements until the first one for which is_site(stmt) holds; returns that statement (or None)"""
+    for st in stmts:
+        if st is None:
+            continue
+        if is_site(st):
+            return st
+        k = st.get("k")
+        if k == "seq":
+            r = _run_until(st["s"], env, this_size, sizes, is_site)
+            if r is not None:
+                return r
+        elif k == "decl":
+            for v in st["vars"]:
+                if "other" not in v and v.get("init") is not None:
+                    env[v["n"]] = _ival(v["init"], env, this_size, sizes)
+        elif k == "expr":
+            _ival(st["e"], env, this_size, sizes)
+        elif k == "if":
+            br = st.get("then") if _ival(st["c"], env, this_size, sizes) else st.get("else")
+            if br is not None:
+                r = _run_until([br], env, this_size, sizes, is_site)
+                if r is not None:
+                    return r
+        elif k == "return":
+            raise _Ret()
+        elif k == "null":
+            continue
+        else:
+            raise _NM("statement " + str(k))
+    return None
+
+
+def check_rwindow(chk, db, rule="RWINDOW"):
+    """rfind(needle, pos) looks at the haystack prefix [0, min(pos, size - n) + n) where n is the needle's length ([string.
+    view.find]: the highest xpos <= pos with xpos + n <= size). The member's straight-line prologue is executed in every
+    model (pos, n, size) with small values and npos; at the point where the backward scan or the delegated find_end starts,
+    the end of the window it is given must be that bound. Models in which no position can match (n > size) are not judged."""
+    n_inst = 0
+    for f in db.by_q.get("etl::basic_string_view::rfind", []):
+        if f.get("body") is None or len(f["params"]) != 2:
+            continue
+        p0, p1 = f["params"]
+        needle_is_view = "string_view" in p0["ty"]
+        if not needle_is_view and "Char" not in p0["ty"]:
+            continue
+        body = f["body"]
+        stmts = body.get("s") or []
+        # does the prologue do anything but delegate?
+        if len(stmts) == 1 and stmts[0].get("k") == "return":
+            continue
+
+        def is_site(st):
+            if st.get("k") in ("for", "while", "do"):
+                return True
+            for e in astx.stmt_exprs(st):
+                for x in astx.walk_expr(e, into_lambdas=False):
+                    if x.get("k") == "call" and astx.callee(x)[0] in ("find_end", "search", "find_if", "find"):
+                        return True
+            return False
+        n_inst += 1
+        construct = astx.sig(f)
+        chk.instance(rule)
+        bad = unknown = None
+        judged = 0
+        for S in range(0, 4):
+            for N in (range(0, 5) if needle_is_view else (1,)):
+                for P in (0, 1, 2, 3, 4, M64 - 1):
+                    if N > S:
+                        continue
+                    env = {p1["n"]: P}
+                    sizes = {p0["n"]: N} if needle_is_view else {}
+                    try:
+                        site = _run_until(stmts, env, S, sizes, is_site)
+                    except _Ret:
+                        continue        # early exit: judged by EXIT
+                    except _NM as ex:
+                        unknown = str(ex)
+                        break
+                    if site is None:
+                        unknown = "no scan or delegated search found"
+                        break
+                    # the window end: `data() + X` in the call, or the initial value of the loop's cursor
+                    end_expr = None
+                    for e in astx.stmt_exprs(site) if site.get("k") not in ("for", "while", "do") else []:
+                        for x in astx.walk_expr(e, into_lambdas=False):
+                            if x.get("k") == "call" and astx.callee(x)[0] in ("find_end", "search", "find_if", "find") and len(x["a"]) >= 2:
+                                end_expr = x["a"][1]
+                    if site.get("k") == "for" and site.get("init") is not None and site["init"].get("k") == "decl":
+                        for v in site["init"]["vars"]:
+                            if v.get("init") is not None:
+                                end_expr = v["init"]
+                    if end_expr is None:
+                        unknown = "the window end handed to the scan is not recognised"
+                        break
+                    try:
+                        got = _ival(end_expr, env, S, sizes)
+                    except _NM as ex:
+                        unknown = str(ex)
+                        break
+                    judged += 1
+                    want = min(P, S - N) + N
+                    if got != want and bad is None:
+                        bad = (P, N, S, got, want)
+                if unknown:
+                    break
+            if unknown:
+                break
+        if unknown:
+            chk.obligation(rule, construct, None)
+            chk.unknown_instance(rule, construct, "not evaluated: %s" % unknown)
+            continue
+        chk.obligation(rule, construct, bad is None, evaluations=judged)
+        if bad:
+            P, N, S, got, want = bad
+            chk.violation(rule, construct, "search-window", "%s: with pos = %s, needle length %d and size() = %d the backward search is given the prefix "
+                          "[0, %d); matches may start at positions <= min(pos, size - n), so the prefix to look at is [0, %d)" % (
+                              astx.loc(f), "npos" if P == M64 - 1 else P, N, S, got, want), {"where": astx.loc(f)})
+    return n_inst
